@@ -8,6 +8,7 @@ import (
 	"regexp"
 	"sort"
 	"strings"
+	"time"
 
 	commonmodels "github.com/lindb/common/models"
 	protoMetricsV1 "github.com/lindb/common/proto/gen/v1/linmetrics"
@@ -575,6 +576,9 @@ func (r *run) query(op core.Op, duringFlush bool) {
 		all[i] = i
 	}
 	lay.Leaves = [][]int{all}
+	lay.Delay = func() time.Duration {
+		return []time.Duration{0, 0, time.Millisecond, 3 * time.Millisecond}[c.Sim.Tape.Choose(4)]
+	}
 	rs, err := r.n.Query(r.db, sqlText, lay)
 	c.Sim.Await(func() bool { return flushDone })
 	c.Oracle()
